@@ -27,8 +27,14 @@ func checkC10(c *Ctx) {
 	for _, g := range HostileCorpus {
 		cfgs = append(cfgs, cfg{g, nil, "combined", 0})
 	}
+	unref := *SynCorpus[0]
+	unref.Name = "G01u"
+	unref.Lex = unref.Lex + "unused : 'u' 'n' ;\nalso : '#' ;\n"
+	unref.ExtraToks = []string{"unused", "also"}
 	cfgs = append(cfgs, cfg{SynCorpus[0], nil, "combined", 0}, cfg{SynCorpus[0], []string{"-no_lexer"}, "no_lexer", 0},
-		cfg{RecoveryCorpus[0], nil, "with-error-symbol", 1})
+		cfg{RecoveryCorpus[0], nil, "with-error-symbol", 1}, cfg{SynCorpus[0], []string{"-v"}, "v", 0},
+		cfg{&unref, nil, "unreferenced-tokens", 0}, cfg{&unref, []string{"-v"}, "unreferenced-tokens-v", 0},
+		cfg{&unref, []string{"-v", "-zip", "-debug_lexer", "-debug_parser"}, "unreferenced-tokens-allflags", 0})
 	var jobs []Job
 	for _, cf := range cfgs {
 		g := *cf.g
@@ -51,17 +57,19 @@ func checkC10(c *Ctx) {
 			Bounds: fmt.Sprintf("grammar %s (%s): every number in range, every terminal name, every unknown name of up to 3 arbitrary bytes", cf.g.Name, cf.tag),
 		})
 	}
-	// lexer-only file
-	res, err := c.Generate("tok_lexonly", "!ws : ' ' ;\nid : 'a'-'z' ;\nnum : '0'-'9' ;\n")
-	if err == nil && res.Exit == 0 {
-		t := res.Target("token", "gentoken/c10.go")
-		os.MkdirAll(filepath.Join(res.Dir, "_verifdata"), 0o755)
-		data := filepath.Join(res.Dir, "_verifdata", "tokdata.go")
-		os.WriteFile(data, []byte("//go:build verif\n\npackage token\n\nvar verifTermNames = []string{\"id\", \"num\"}\n"), 0o644)
-		t.Harness = append(t.Harness, data)
-		jobs = append(jobs, Job{Name: "bijection lexer-only", Target: t, Run: SymRun{Harness: "VerifC10Bijection", LoopBound: 32}, Bounds: "lexer-only grammar file"})
-	} else {
-		c.Inconclusive = append(c.Inconclusive, fmt.Sprintf("gocc failed on the lexer-only grammar: %v", err))
+	// lexer-only file, plain and with -v
+	for _, lf := range [][]string{nil, {"-v"}} {
+		res, err := c.Generate(fmt.Sprintf("tok_lexonly%v", lf), "!ws : ' ' ;\nid : 'a'-'z' ;\nnum : '0'-'9' ;\n", lf...)
+		if err == nil && res.Exit == 0 {
+			t := res.Target("token", "gentoken/c10.go")
+			os.MkdirAll(filepath.Join(res.Dir, "_verifdata"), 0o755)
+			data := filepath.Join(res.Dir, "_verifdata", "tokdata.go")
+			os.WriteFile(data, []byte("//go:build verif\n\npackage token\n\nvar verifTermNames = []string{\"id\", \"num\"}\n"), 0o644)
+			t.Harness = append(t.Harness, data)
+			jobs = append(jobs, Job{Name: fmt.Sprintf("bijection lexer-only%v", lf), Target: t, Run: SymRun{Harness: "VerifC10Bijection", LoopBound: 32}, Bounds: fmt.Sprintf("lexer-only grammar file, flags %v", lf)})
+		} else {
+			c.Inconclusive = append(c.Inconclusive, fmt.Sprintf("gocc failed on the lexer-only grammar: %v", err))
+		}
 	}
 	c.BoundsText = append(c.BoundsText, "generated token package of corpus grammars (hostile spellings; combined, -no_lexer, lexer-only, with error symbol): structural facts evaluated by the engine, round trips decided for a symbolic number and a symbolic unknown name (<= 3 bytes)",
 		"the 'lexer emits / parser is indexed by these numbers' half is enforced by C01/C02/C05/C06: their oracles speak terminal NAMES and convert through the generated token.TokMap")
@@ -179,6 +187,22 @@ func checkC03(c *Ctx) {
 				// production 0 of the generated table is the augmented S' : S
 				Run:    SymRun{Harness: "VerifC03Default", Params: map[string]int{"PROD": k + 1}, LoopBound: 16},
 				Bounds: fmt.Sprintf("generated reduce function of production %d of %s (no action written), arbitrary attribute objects", k+1, g.Name),
+			})
+		}
+	}
+	for _, g := range RecoveryCorpus {
+		t, err := c.parserTarget(g.WithRecordingActions(), true, parserHarness...)
+		if err != nil {
+			c.Inconclusive = append(c.Inconclusive, err.Error())
+			continue
+		}
+		for n := 1; n <= maxN; n++ {
+			jobs = append(jobs, Job{
+				Name:           fmt.Sprintf("error-clause %s N=%d", g.Name, n),
+				Target:         t,
+				Run:            SymRun{Harness: "VerifC03ErrClause", Params: map[string]int{"N": n}, LoopBound: 8*(n+1) + 16, ForkFuncs: []string{"Parse", "VerifC03ErrClause", "Error"}},
+				Bounds:         fmt.Sprintf("grammar %s (with error alternatives), every sequence of %d tokens, every choice of the failing action occurrence", g.Name, n),
+				RequiredCovers: []string{"end"},
 			})
 		}
 	}
